@@ -25,8 +25,10 @@ step sets a class of this step up for another grammar (a class object describes 
 time: see notes/C05.md, interpretation decisions).
 
 Grammars of earlier steps: variants of the last grammar (containment attribute added / removed,
-containment turned into a reference and back, multiplicity changed, attributes reordered — preferably
-in the rules served by user classes), independent grammars over the same rule names, or the same grammar.
+containment turned into a reference and back, multiplicity changed, attributes reordered, the rule a
+containment attribute holds changed (same name and multiplicity), a rule contained nowhere (only referenced),
+a multi-typed attribute with one type —
+preferably in the rules served by user classes), independent grammars over the same rule names, or the same grammar.
 """
 import copy as _copy
 import gc
@@ -386,7 +388,7 @@ def obj_targets(gram):
     return commons[1:] + abstracts
 
 
-def mutate_grammar(rng, gram, focus=()):
+def mutate_grammar(rng, gram, focus=(), untype=None):
     """a variant of `gram` (another version / dialect of the language): 1-3 changes to the attributes of its
     common rules — preferably of the rules in `focus` — that keep the grammar in the generator's family
     (every attribute element has its own keyword, so any order / multiplicity stays LL(1))"""
@@ -395,19 +397,25 @@ def mutate_grammar(rng, gram, focus=()):
     commons = [r for r in g["rules"] if r["kind"] == "common"]
     targets = obj_targets(g)
     changed = []
-    for _ in range(rng.weighted([(1, 5), (2, 3), (3, 2)])):
+    for k_op in range(rng.weighted([(1, 5), (2, 3), (3, 2)])):
         pref = [r for r in commons if r["name"] in focus]
         r = rng.choice(pref) if pref and rng.chance(0.7) else rng.choice(commons)
         el = r["elems"]
-        idxs = [i for i, e in enumerate(el) if e["k"] in ("cont", "ref", "prim", "flag") and not e.get("bare")]
+        idxs = [i for i, e in enumerate(el) if e["k"] in ("cont", "mcont", "ref", "prim", "flag") and not e.get("bare")]
         conts = [i for i in idxs if el[i]["k"] == "cont"]
+        mconts = [i for i in idxs if el[i]["k"] == "mcont"]
         refs = [i for i in idxs if el[i]["k"] == "ref"]
         lo = 1 + max((i for i, e in enumerate(el) if e["k"] in ("name",) or (e["k"] == "kw" and e["v"] == r["kw"])),
                      default=0)
         hi = len(el) - (1 if el and el[-1].get("bare") and el[-1].get("attr") == "tail" else 0)
         op = rng.weighted([("c2r", 4 if conts else 0), ("r2c", 4 if refs and targets else 0),
                            ("add", 3 if targets else 0), ("drop", 2 if idxs else 0), ("mult", 2 if conts else 0),
-                           ("swap", 1 if len(idxs) >= 2 else 0), ("addref", 1 if targets else 0)])
+                           ("swap", 1 if len(idxs) >= 2 else 0), ("addref", 1 if targets else 0),
+                           ("retype", 3 if mconts else 0),
+                           ("retarget", 4 if conts and len(targets) > 1 else 0),
+                           ("untype", 4 if len(targets) > 1 else 0)])
+        if untype is not None and k_op == 0:
+            op = "untype"
         if op == "c2r":
             i = rng.choice(conts)
             e = el[i]
@@ -437,6 +445,55 @@ def mutate_grammar(rng, gram, focus=()):
         elif op == "mult":
             i = rng.choice(conts)
             el[i] = dict(el[i], mult=rng.choice([m for m, _ in CONT_MULTS if m != el[i]["mult"]]))
+        elif op == "untype":
+            # a rule that is contained nowhere in the other version of the language (only referenced, or replaced by
+            # another rule): every containment attribute of the grammar that holds it is turned into a reference or
+            # holds another rule — the classes that can occur below the objects of a class differ between the versions
+            used = sorted({e["target"] for r2 in commons for e in r2["elems"] if e["k"] == "cont" and not e.get("bare")}
+                          | {a["t"] for r2 in commons for e in r2["elems"] if e["k"] == "mcont" for a in e["alts"]
+                             if a["t"] in targets})
+            if untype is not None and k_op == 0:
+                t = untype
+            elif not used:
+                continue
+            else:
+                t = rng.choice(used)
+
+            def holds(x):
+                return x == t or (x in targets and t in G.instances_of(g, x))
+
+            others = [x for x in targets if not holds(x)]
+            if not others:
+                continue
+            for r2 in commons:
+                for i, e in enumerate(r2["elems"]):
+                    if e["k"] == "cont" and holds(e["target"]) and not e.get("bare"):
+                        if rng.chance(0.5):
+                            r2["elems"][i] = {"k": "ref", "attr": e["attr"], "target": e["target"], "mult": C2R[e["mult"]],
+                                              "kw": e["kw"], "open": e["open"], "close": e["close"], "sep": e["sep"]}
+                        else:
+                            r2["elems"][i] = dict(e, target=rng.choice(others))
+                    elif e["k"] == "mcont" and any(holds(a["t"]) for a in e["alts"]):
+                        r2["elems"][i] = dict(e, alts=[dict(a, t=rng.choice(others)) if holds(a["t"]) else a
+                                                       for a in e["alts"]])
+        elif op == "retarget":
+            # same attribute, same multiplicity, same place — objects of another rule: the containment lists of the
+            # class do not change, what the meta-model says about the *type* of the attribute does
+            i = rng.choice(conts)
+            el[i] = dict(el[i], target=rng.choice([t for t in targets if t != el[i]["target"]]))
+        elif op == "retype":
+            # a multi-typed attribute that has one type in the other version of the language (same name)
+            i = rng.choice(mconts)
+            e = el[i]
+            objs = [a for a in e["alts"] if a["t"] in targets] or e["alts"]
+            a = rng.choice(objs)
+            if a["t"] in targets:
+                m = {"choice": "one", "choiceopt": "opt", "choicerep": "rep", "seq": "twice",
+                     "lists": "star", "choicelists": "plus"}[e["form"]]
+                el[i] = {"k": "cont", "attr": e["attr"], "target": a["t"], "mult": m, "kw": a["kw"], "kw2": kw.new(),
+                         "open": a["open"], "close": a["close"], "sep": a.get("sep") or ","}
+            else:
+                del el[i]
         elif op == "swap":
             i, j = rng.sample(idxs, 2)
             el[i], el[j] = el[j], el[i]
@@ -510,7 +567,7 @@ def ensure_user(rng, gram, tree):
 
 def gen_history(rng, gram, tree, gen_queries):
     """earlier steps for a case with grammar `gram` and derivation `tree` -> (history, extra case fields)"""
-    kind = rng.weighted([("variant", 9), ("independent", 3), ("samegram", 2), ("samemm", 5), ("mixed", 3)])
+    kind = rng.weighted([("variant", 9), ("independent", 3), ("samegram", 2), ("samemm", 5), ("mixed", 3), ("typed", 3)])
     present = {n["r"] for n, _, _, _ in G.walk_nodes(gram, tree)}
     focus = [r["name"] for r in gram["rules"] if r.get("user") and r["name"] in present] or \
             [r["name"] for r in gram["rules"] if r.get("user")]
@@ -538,11 +595,27 @@ def gen_history(rng, gram, tree, gen_queries):
             first = False
         extra["reuse"] = rng.chance(0.85)
 
-    if kind == "variant":
+    if kind == "typed":
+        # the version of the language in which a rule whose objects sit below an instance of a (shared) user class in
+        # this model is contained nowhere: what can occur below the objects of that class differs between the versions
+        below = set()
+        for n, _, _, _ in G.walk_nodes(gram, tree):
+            if n["r"] in focus:
+                below |= {m["r"] for m, _, _, _ in G.walk_nodes(gram, n)} - {n["r"]}
+        below = sorted(below) or sorted(present - {gram["rules"][0]["name"]})
+        if below:
+            g, _ch = mutate_grammar(rng, gram, focus, untype=rng.choice(below))
+            hist.append(step(g, False, share=rng.chance(0.9), drop=rng.chance(0.2)))
+        else:
+            variants(1)
+    elif kind == "variant":
         variants(rng.weighted([(1, 6), (2, 3), (3, 1)]))
     elif kind == "independent":
         for _ in range(rng.randint(1, 2)):
             g = G.gen_grammar(rng, want_traits=True, p_user=0.0)
+            side = type(rng)(f"{rng.s}:multi")
+            if side.chance(0.3):
+                G.multi_type(side, g)
             copy_user_spec(gram, g)
             hist.append(step(g, False, share=rng.chance(0.6), drop=rng.chance(0.3), defer=rng.chance(0.2)))
     elif kind == "samegram":
